@@ -17,6 +17,18 @@ CHECKS = {
    text="The sequential program-order loop (HGProps!WhileRef) is the reference; TLC checks the engine model against it (iteration counts, final values, step bound, prefix-consistency of truncated runs) for every loop template instance, and the real runners are compared with the reference (counts, final values) and with the model (termination outcome, partial values).",
    note="Trusted: TLC, scripted gates, builder. Templates: while / documented signal-synchronised chat loop, body length 1..3, END or exit node, nested for single-node cycles, all listed entry points, truncating and sufficient max_iterations.",
    technique="TLA+ engine model refines sequential while-loop (TLC invariant); spec->code differential replay"),
+ "C11": dict(level="fault_enumeration", engine="HGEngine",
+   text="Every function/gate node of every generated program (flat gated/cyclic, DAGs with nested graphs to depth 2) is made the failing node (1st and 2nd invocation, and pairs), under both error_handling modes and both runners. The surfaced exception must be the very object the body raised (is), and the FAILED result's values must lie between the bounds TLC computes on the engine model (lower: everything completed before the failing step; upper: every successful sibling), the model itself being checked against HGProps!C11 as a TLC invariant.",
+   note="Trusted: TLC, harness bodies, builder. map()-level error propagation is covered by C10. Interrupt handlers excluded (the code wraps their failures on purpose).",
+   technique="fault enumeration over node positions; TLA+ engine model gives partial-result bounds (TLC invariant L2|=L1); spec->code differential"),
+ "C16": dict(level="model_checking", engine="HGEngine",
+   text="TLC checks the engine model against HGProps!C16 (only nodes in the declared downstream cone of the entry points run; result keys within declared outputs and the effective selection; no sentinel) and trace-checks every recorded real call log against the scope monitor; the real results are compared with the model (values, executed set) and with the on_missing policy (ignore/warn once/ValueError).",
+   note="Trusted: TLC, harness bodies, builder; inputs are taken from the implementation's own input spec (C08 covers the contract). Paused results are covered in C14.",
+   technique="TLA+ engine model + L1 scope monitor as TLC invariant; TLC trace validation of recorded call logs; spec->code differential"),
+ "C17": dict(level="model_checking", engine="HGEngine",
+   text="Signal monitor (a waiter start is preceded by a completed production that no earlier run of it consumed; never in the producer's step) is a TLC invariant on the model's runs and is evaluated by TLC on every recorded real call log; (producer, waiter) order projections and waiter invocation counts of the real runners equal the model's (liveness half), including the documented signal-synchronised loop.",
+   note="Trusted: TLC, harness bodies, builder. A production = completed invocation of a node listing the awaited name as output.",
+   technique="TLA+ engine model + L1 monitor as TLC invariant; TLC trace validation of recorded call logs; spec->code differential"),
 }
 
 def entry(pid, c):
